@@ -372,7 +372,7 @@ prop("C20", engine=None, program="c20", rule=(
               "not_defined subsets, compile and run, oracle inside the "
               "program)",
     quick=dict(cases=0, size=1), thorough=dict(cases=0, size=1))
-prop("C12", engine="e1", rule=(
+prop("C12", engine="e1", program="c13", rule=(
     "random registries, arity 1..4; round trip: the text written by "
     "generator::write_static_offsets is parsed and compared position by "
     "position with the slots and strides update installed; differential: "
@@ -381,9 +381,11 @@ prop("C12", engine="e1", rule=(
     "with the consistency check silent, then each number is perturbed in "
     "turn and the checked policy must raise static_slot_error / "
     "static_stride_error before any body runs; non-trivial = a method of "
-    "arity >= 3 (first arity where grouped and interleaved layouts differ)"),
+    "arity >= 3 (first arity where grouped and interleaved layouts differ); "
+    "plus generated two-stage programs (see C13) compiled with the generated "
+    "offsets under checked and unchecked policies"),
     quick=dict(cases=4000, size=60), thorough=dict(cases=100000, size=100))
-prop("C13", engine="e1", rule=(
+prop("C13", engine="e1", program="c13", rule=(
     "random lattice-biased registries with type_info ids, gaps and "
     "ambiguities; the text written by generator::encode_dispatch_data is "
     "parsed (declared sizes non-negative, initializers fit), rebuilt in "
@@ -391,7 +393,13 @@ prop("C13", engine="e1", rule=(
     "real decode_dispatch_data under ASan in a state emulating a fresh "
     "process; afterwards every tuple dispatches as the model says and as "
     "before encoding; non-trivial = a class whose v-table does not start at "
-    "slot 0 or has no entries, and a multi-method"),
+    "slot 0 or has no entries, and a multi-method. Compile tier: generated "
+    "two-stage programs (random class DAG, possibly in namespaces, methods "
+    "of arity 1..3, debug or release policy): stage A updates, records every "
+    "tuple's outcome and writes forward declarations + static offsets + "
+    "encoded tables; stage B is the same registry compiled with the "
+    "generated files by g++ and by clang++, decodes instead of updating and "
+    "must reproduce the record"),
     quick=dict(cases=4000, size=60), thorough=dict(cases=100000, size=100))
 prop("C14", engine="e1", rule=(
     "stateful over 2..3 policies (rebind / replace / remove compositions: "
@@ -581,7 +589,8 @@ def replay_file(exe, path, fork=True):
     return failed, msg
 
 
-PROGRAM_ENGINES = {"c11": "proggen.c11", "c20": "proggen.c20"}
+PROGRAM_ENGINES = {"c11": "proggen.c11", "c20": "proggen.c20",
+                   "c13": "proggen.c13"}
 
 
 def program_module(name):
@@ -742,7 +751,11 @@ def check(pid, tier, seed):
         def pool_map(fn, items):
             with cf.ThreadPoolExecutor(max_workers=NCPU) as ex2:
                 return list(ex2.map(fn, items))
-        program_result = mod.check(tier, seed, scratch, INC, NCPU, pool_map)
+        import inspect
+        kw = {"prop": pid} if "prop" in inspect.signature(
+            mod.check).parameters else {}
+        program_result = mod.check(tier, seed, scratch, INC, NCPU, pool_map,
+                                   **kw)
 
     total = dict(evaluations=0, nontrivial=0, inconclusive=0)
     classes, excluded, samples, failures = {}, {}, [], []
